@@ -320,7 +320,7 @@ fn case(c: &mut Case<'_>) -> CaseResult {
         return Err(c.fail("transport-error", e.clone()));
     }
     if alt.is_none() && !want.accepted() {
-        return Err(crate::engine::Stop::Fail { sig: "harness-panic:signer-vs-reference".into(), msg: format!("reference verifier says {want:?}\n{}", req.render()) });
+        return Err(crate::engine::Stop::Fail { sig: "harness-error:signer-vs-reference".into(), msg: format!("reference verifier says {want:?}\n{}", req.render()) });
     }
     let got = authenticated(&out);
     if b.has_new_subresource {
